@@ -57,6 +57,12 @@ def gen_cases(rng, tier):
     # a multi-round experiment whose bulk block (cycles - 3 >= 2 repetitions) is unrolled, flattened and then copied into the experiment,
     # on a chain whose first gate layer activates two ancillas (the copy of a group relation must keep every member)
     cases.append({'k': 'multi', 'desc': {'src': 'chain', 'length': 5, 'refocus': True}, 'init': [0, 1, 0], 'rounds': [5], 'env': _env_corners(rng)[0]})
+    # a derived (composite) description: two ancillas active in the same gate layers, the LAST gate edge of one of them excluded
+    # (its closing rotation then shares a layer with the other ancilla's flux operations), microwave longer than flux
+    for excl, cyc in (([['Z2', 'D3']], 1), ([['Z1', 'D5']], 3), ([], 2)):
+        cases.append({'k': 'repcode', 'desc': {'src': 'composite', 'name': 'Repetition9Code', 'involved': ['D4', 'Z1', 'D5', 'D3', 'Z2', 'D6'],
+                                               'excl_e': excl, 'refocus': True},
+                      'init': [rng.randint(0, 1) for _ in range(4)], 'cycles': cyc, 'env': _env_corners(rng)[0]})
     # random part
     n = {'repcode': 12, 'simplified': 9, 'multi': 4, 'calib': 3} if quick else {'repcode': 220, 'simplified': 140, 'multi': 40, 'calib': 40}
     for kind, cnt in n.items():
